@@ -25,10 +25,11 @@ MCPol ==
  @@ "T" :> [rules |-> [main |-> <<[pr |-> {"p1"}, thr |-> 1]>>, feat |-> <<>>], gthr |-> {[refs |-> {"main", "feat"}, thr |-> 2]}, bfp |-> {}, all |-> P, apps |-> NoApps]
  @@ "R" :> [rules |-> [main |-> <<[pr |-> P, thr |-> 2]>>, feat |-> <<>>], gthr |-> {}, bfp |-> {}, all |-> P,
             apps |-> [appT |-> [trusted |-> TRUE, key |-> "appkey"], appU |-> [trusted |-> FALSE, key |-> "appkey2"]]]
+ @@ "M3" :> ([rules |-> [main |-> <<[pr |-> P, thr |-> 3]>>, feat |-> <<>>]] @@ NoGlobal)
  @@ "T0" :> ([rules |-> [main |-> <<[pr |-> {"p1"}, thr |-> 1]>>, feat |-> <<>>]] @@ NoGlobal)
 
-PolIds == CASE Family \in {"window", "tworec"} -> {"A", "B"} [] Family = "approvals" -> {"R"} [] Family = "nopolicy" -> {"A"} [] Family = "chain" -> {"A", "B"} [] Family = "global" -> {"A", "G", "H", "T"} [] Family = "recovery" -> {"A", "B"} [] OTHER -> {"A", "B", "C"}
-MainSigners == CASE Family \in {"window", "tworec"} -> {"p1", "p3"} [] Family = "approvals" -> {"p1", "kU"} [] Family = "chain" -> {"p1", "p3"} [] Family = "global" -> {"p1", "p3", "kU"} [] Family = "recovery" -> {"p1", "p3"} [] OTHER -> {"p1", "p2", "p3", "kU", "none"}
+PolIds == CASE Family = "merge" -> {"A", "C", "M3", "T"} [] Family \in {"window", "tworec"} -> {"A", "B"} [] Family = "approvals" -> {"R"} [] Family = "nopolicy" -> {"A"} [] Family = "chain" -> {"A", "B"} [] Family = "global" -> {"A", "G", "H", "T"} [] Family = "recovery" -> {"A", "B"} [] OTHER -> {"A", "B", "C"}
+MainSigners == CASE Family = "merge" -> {"p1"} [] Family \in {"window", "tworec"} -> {"p1", "p3"} [] Family = "approvals" -> {"p1", "kU"} [] Family = "chain" -> {"p1", "p3"} [] Family = "global" -> {"p1", "p3", "kU"} [] Family = "recovery" -> {"p1", "p3"} [] OTHER -> {"p1", "p2", "p3", "kU", "none"}
 
 PrevOf(l, r) == LET S == {j \in 1..Len(l) : IsFor(l[j], r)} IN IF S = {} THEN 0 ELSE Max(S)
 RefEntries(l) ==
@@ -53,6 +54,9 @@ AttEntries(l) ==
                    t \in {1, 2}, st \in {1, 2}, app \in {"appT", "appU"}, sg \in {"appkey", "kU"}, ap \in {{"p2"}, {"p1", "p2"}}}
          \cup {[k |-> "att", apps |-> {App("main", f, 1, "main", f, 1, {"p2"})}, crs |-> {Cr("main", f, 1, "main", f, 1, "appT", "appkey", {"p2", "p3"})}]}
          \cup {[k |-> "att", apps |-> {App("main", f, 1, "feat", f, 1, {"p2"})}, crs |-> {}], [k |-> "att", apps |-> {App("main", f, 1, "main", 0, 1, {"p2"})}, crs |-> {}]}
+    ELSE IF Family = "merge" THEN
+         {[k |-> "att", apps |-> {App("main", PrevOf(l, "main"), t, "main", PrevOf(l, "main"), t, by)}, crs |-> {}] :
+              t \in {1, 2}, by \in {{"p1"}, {"p2"}, {"p2", "p3"}, {"p1", "p2", "p3"}, {"kU"}}}
     ELSE {[k |-> "att", apps |-> {App("main", f, t, "main", f, t, by)}, crs |-> {}] :
               f \in {PrevOf(l, "main")}, t \in {1, 2}, by \in {{"p2"}, {"p2", "p3"}}}
          \cup {[k |-> "att", apps |-> {}, crs |-> {}]}
@@ -87,9 +91,14 @@ C02Refines == \A r \in Refs :
                  /\ Between(OkOrFail(ImplLatest(log, r, {})), DVerdictLatest(log, r, FALSE), DVerdictLatest(log, r, TRUE))
                  /\ \A i \in RefPositions(r) : Between(OkOrFail(ImplFrom(log, r, i, {})), DVerdictFrom(log, r, i, FALSE), DVerdictFrom(log, r, i, TRUE))
                  /\ (Impl(log, r, {}) = "ok" => ImplLatest(log, r, {}) = "ok")
+\* C19: the mergeability answer agrees with verification of the merge once recorded (side conditions of the statement:
+\* the branch's previous entry is unskipped -- built into the prediction -- and the prediction is made at the end of the log)
+C19Side == HasEntries(log, "main") /\ LatestUnskippedFor(log, "main") = LatestFor(log, "main")     \* the previous entry is unskipped
+C19Agrees == \A tree \in {1, 2} : C19Side =>
+                MergeAgrees(log, "main", tree, MergePredictI(log, "main", tree, {}), LAMBDA s : MergeVerifies(log, "main", tree, s, {}))
 \* C09 is C01Refines over the approvals family (statement-bound approvals, code-review approvals)
 \* C11: global rules only add constraints -- removing them never turns an accepted history into a rejected one
-Strip == "R" :> "R" @@ "A" :> "A" @@ "B" :> "B" @@ "C" :> "C" @@ "G" :> "A" @@ "H" :> "A" @@ "T" :> "T0"
+Strip == "M3" :> "M3" @@ "R" :> "R" @@ "A" :> "A" @@ "B" :> "B" @@ "C" :> "C" @@ "G" :> "A" @@ "H" :> "A" @@ "T" :> "T0"
 StripLog(l) == [i \in DOMAIN l |-> IF l[i].k = "pol" THEN [l[i] EXCEPT !.v = Strip[l[i].v]] ELSE l[i]]
 C11Mono == \A r \in Refs : /\ Impl(log, r, {}) = "ok" => Impl(StripLog(log), r, {}) = "ok"
                            /\ DVerdictC01(log, r, TRUE) = "ok" => DVerdictC01(StripLog(log), r, TRUE) = "ok"
